@@ -85,20 +85,20 @@ def shape (s : Bytes) : Option (Bytes × Bytes × Bytes × Bytes) :=
       | none => none
       | some (u, r3) => if r3.isEmpty then some (ms, h, t, u) else none
 
-/-- `parseGroup(input, unit, digit5, digit10)` (F1) -/
+/-- `parseGroup(input, unit, digit5, digit10)` (F1): `eqCI c d` is `c == d || c == d+lowerShift` -/
 def parseGroup (input : Bytes) (unit digit5 digit10 : Nat) : Outcome Nat :=
   let l := input.length
   if l = 0 then .ok 0
   else match input[0]? with
     | none => .panic
     | some c0 =>
-      if c0 == digit5 || c0 == digit5 + 32 then .ok ((4 + l) * unit)
+      if eqCI c0 digit5 then .ok ((4 + l) * unit)
       else if l = 1 then .ok unit
       else match input[1]? with
         | none => .panic
         | some c1 =>
-          if c1 == digit5 || c1 == digit5 + 32 then .ok (4 * unit)
-          else if c1 == digit10 || c1 == digit10 + 32 then .ok (9 * unit)
+          if eqCI c1 digit5 then .ok (4 * unit)
+          else if eqCI c1 digit10 then .ok (9 * unit)
           else .ok (l * unit)
 
 /-- `checkInputLength`: `.ok true` = empty input accepted as zero -/
